@@ -21,6 +21,14 @@ def run(repo, run, tier):
                     "a palindromic composition of exact sub-flows is time-reversible",
                     "python ast, fractions; the analyser in /verif/sa"]
     run.assumptions += ["step() evaluates the map defined by the tables (property C02's clause, partly re-checked here as C10.4)"]
+    # the one-step map is a function of (t, y, h) alone: every return of the splitting step comes after the reset of the increment and after the sweep over the table
+    # (a short-cut return for steps that 'cannot advance the clock' hands back the PREVIOUS call's increment: h followed by -h no longer returns to the start)
+    from .common import returns_pass_through
+    returns_pass_through(repo, run, "C10.11", extract.ITYPES, "ExplicitSymplecticIntegrator.step",
+                         [("the reset of the increment (self.dState)", lambda st: (isinstance(st, ast.AugAssign) and isinstance(st.op, ast.Mult) and is_self_attr(st.target, "dState")) or
+                           (isinstance(st, ast.Assign) and any(is_self_attr(t, "dState") for t in st.targets) and "zeros" in src(st.value))),
+                          ("the stage loop (the loop that evaluates the right-hand side)", lambda st: isinstance(st, ast.For) and any(isinstance(c, ast.Call) and dotted(c.func) == "rhs" for c in ast.walk(st)))],
+                         "the splitting step", "the map returned depends on the history of the instance, and the composition of a step h and a step -h is not the identity")
     r1 = run.rule("C10.1", "every shipped RK class flagged symplectic satisfies max|b_i a_ij + b_j a_ji - b_i b_j| <= 1e-13", floor=3)
     r2 = run.rule("C10.2", "the flagged RK classes are symmetric: a_{s+1-i,s+1-j} + a_ij = b_j, b_{s+1-i} = b_i", floor=3)
     r3 = run.rule("C10.3", "every shipped splitting table: each row has at most one of (drift, kick) non-zero, "
